@@ -60,7 +60,10 @@ func Merge[T any](out chan<- T, in ...<-chan T) {
 		}
 		chosen, item, ok := reflect.Select(selectCases)
 		if ok {
-			out <- item.Interface().(T)
+			// A nil value of an interface-typed T comes back as a nil interface, which a plain type
+			// assertion rejects; the zero T is that same nil value.
+			v, _ := item.Interface().(T)
+			out <- v
 		} else {
 			selectCases = xslices.RemoveUnordered(selectCases, chosen, 1)
 		}
